@@ -149,6 +149,9 @@ func fileServerTable(h H) *fsTableResult {
 							case callee == "os.IsNotExist":
 								p, ok := args[0].(aptr)
 								return abool(ok && p.obj == errNotExist.obj), true
+							case callee == "path/filepath.IsAbs":
+								// (windows only) the table's names are plain file names below the root, not drive or UNC paths
+								return abool(false), true
 							case callee == "os.IsPermission":
 								return abool(false), true
 							case callee == "invoke:Header":
@@ -376,6 +379,9 @@ func fileRedirectTable(h H) (bad string, ncases int) {
 			case callee == "invoke:Close":
 				return anil{}, true
 			case callee == "os.IsNotExist", callee == "os.IsPermission", callee == "os.SameFile":
+				return abool(false), true
+			case callee == "path/filepath.IsAbs":
+				// (windows only) the table's names are plain names below the root, not drive or UNC paths
 				return abool(false), true
 			case callee == "invoke:Header":
 				return respHdr, true
